@@ -67,7 +67,7 @@ def sweep_entry(run, entry, cfgs, rnd, tier, deadline, hostile=None):
     n_random = 40 if tier == 'quick' else 4000
     if hostile:
         exhaustive_bits, max_cases, n_random = 8, 96 if tier == 'quick' else 600, 24 if tier == 'quick' else 200
-    extra = (dict(shared_inputs=hostile) if hostile.startswith('alias') else dict(caller_list=hostile)) if hostile else {}
+    extra = (dict(shared_inputs=hostile) if hostile.startswith('alias') else dict(late_drivers=True) if hostile == 'late_drivers' else dict(caller_list=hostile)) if hostile else {}
     nconf = 0
     for cfg in cfgs:
         if time.time() > deadline:
@@ -81,11 +81,24 @@ def sweep_entry(run, entry, cfgs, rnd, tier, deadline, hostile=None):
                     run.count('aliased_build_' + outs)
                     continue
                 run.count('configs_with_shared_input_wires')
+            elif hostile == 'late_drivers':
+                # every input of the block is driven by a buffer created AFTER the block: the evaluation order must come from the
+                # ports the block registered, not from the order of creation
+                with muted():
+                    ins, outs = entry.build(hw, cfg, hw.wire)
+                    drv = []
+                    for k, w in enumerate(ins):
+                        d = hw.wire('drv%d' % k, w.getWidth())
+                        py4hw.Buf(hw, 'drvbuf%d' % k, d, w)
+                        drv.append(d)
+                    ins = drv
+                    sim = hw.getSimulator()
+                run.count('configs_with_late_drivers')
             else:
                 with muted(), (catalog.hostile_lists(hostile) if hostile else contextlib.nullcontext()) as hl:
                     ins, outs = entry.build(hw, cfg, hw.wire)
                     sim = hw.getSimulator()
-            if hostile and not hostile.startswith('alias'):
+            if hostile and not hostile.startswith('alias') and hostile != 'late_drivers':
                 if not hl.lists_seen:
                     continue          # no list argument: nothing new to observe
                 run.count('configs_with_caller_list_reused')
@@ -173,7 +186,7 @@ def run_prop(run, prop, tier, seed, shard, seconds):
         for k, mode in enumerate(('clear', 'reverse', 'rotate', 'fill')):
             sweep_entry(run, entry, cfgs[k::4] if tier == 'quick' else cfgs, rnd, tier, deadline, hostile=mode)
         # ... and with one wire connected to several input ports of the block
-        for mode in ('alias_all', 'alias_pairs'):
+        for mode in ('alias_all', 'alias_pairs', 'late_drivers'):
             sweep_entry(run, entry, cfgs, rnd, tier, deadline, hostile=mode)
         per_block[entry.name] = dict(configs=n, evaluations=run.evaluations - e0)
         if n:
